@@ -139,6 +139,8 @@ class GlomError(Exception):
         exc_wrapper_type = type(f"GlomError.wrap({exc_type.__name__})", bases, {})
         try:
             wrapper = exc_wrapper_type(*exc.args)
+            if wrapper.args != exc.args:  # re-creation changed the args
+                return exc
             wrapper.__wrapped = exc
             return wrapper
         except Exception:  # maybe exception can't be re-created
@@ -2284,6 +2286,8 @@ def glom(target, spec, **kwargs):
             # stack trace with the explicit "raise err" below
             try:
                 err = copy.copy(e)
+                if err.args != e.args:  # re-creation changed the args
+                    err = e
             except Exception:  # maybe exception can't be re-created
                 err = e
             err._set_wrapped(e)
